@@ -132,7 +132,7 @@ Definition dummy_value (init : option ival) (dt : dtype) : dtype * dval :=
   | Some (IVOther d) => (d, VGiven d)
   | None => match dt with
             | DFloat => (DFloat, VNum None)
-            | DInt => (DInt, VInt (-1))
+            | DInt => (DInt, VInt sensor_dummy_int)      (* regenerated from dummy_sensor_getter *)
             | DStr => (DStr, VEmptyStr)
             | DBool => (DBool, VFalse)
             | DObj => (DObj, VNoneObj)
@@ -154,7 +154,8 @@ Definition finish_dummy (dt : dtype) (dv : dval) (p : props) (ts : list Q) : xre
        | _ => XErr
        end.
 
-Definition offset_of (p : props) : Q := match p_off p with Some o => o | None => 0 end.
+(* props.get(time_offset, 0): the default is regenerated from SensorCache._extract *)
+Definition offset_of (p : props) : Q := match p_off p with Some o => o | None => inject_Z sensor_offset_default end.
 
 (* the cleaned samples the interpolation sees: raw samples are READ, shifted copy is cleaned *)
 Definition usable (g : getter) (p : props) : list sample :=
